@@ -86,6 +86,14 @@ CLAIMED = {
             "permutation), every batch size and one-shot, and incremental classification in arrival order.",
             "Bounds: lists of 2-3 (thorough 4) graphs over shapes {K1,K2,2K1,P3,K3,K2+K1}, element {C,N}, charge {0,1}, "
             "order {1,2}; attribute None or node count."),
+    "C14": ("Bounded symbolic model checking of the result cache (_RuleApplier.__call__, real code) driven as BatchReactor "
+            "drives it, with the addresses returned by id() and the substrate contents as solver variables under "
+            "CPython's id() contract (liveness observed through weak references), cache sizes forcing eviction; plus "
+            "BatchReactor.fit (serial, real RDKit) on every order of a batch with look-alike substrates, cache "
+            "on/off/tiny, dedupe on/off, against single-entry runs.",
+            "Bounds: <=3 (4) entries x <=2 (3) rules; _execute replaced by an uninterpreted tag in a subclass; process "
+            "pools / worker counts / parallel validators are outside this family (OS level); batched clustering is "
+            "decided under C13."),
     "C15": ("Bounded symbolic model checking of the real CRNHyperGraph: every operation code and operand of a history of "
             "<=3 (quick) / <=4 (thorough) edits is a solver variable, every feasible path is explored, and the "
             "representation invariant, frame conditions and copy/merge isolation are checked after every step against "
